@@ -182,6 +182,9 @@ def wants(op):
     """kinds of store objects an operation can be aimed at"""
     n = op[0]
     if n in ('aget', 'aset'): return ('a',)
+    if n == 'conv':
+        return {'sv': ('v', 'l'), 'svc': ('v', 'l'), 'SV': ('v', 'l'), 'SL': ('v', 'l'),
+                'sa': ('a', 'b'), 'sac': ('a', 'b'), 'SA': ('a', 'b')}.get(op[1], ('v', 'l', 'a', 'b'))
     if n == 'copylike': return ('v', 'a')
     if n == 'fromflat': return ('v', 'a')
     if n == 'toflat': return ('v', 'l', 'a', 'b')
@@ -211,7 +214,7 @@ def resolve_op(store, op):
     """raw indices -> indices of suitable objects of the current store; None if no object fits"""
     op = [list(x) if isinstance(x, tuple) else x for x in op]
     n = op[0]
-    pos = 3 if n == 'rbin' else (2 if n in ('bin', 'ibin', 'un', 'red') else 1)
+    pos = 3 if n == 'rbin' else (2 if n in ('bin', 'ibin', 'un', 'red', 'conv') else 1)
     i = pick(store, op[pos], wants(op))
     if i is None: return None
     op = list(op); op[pos] = i
@@ -222,6 +225,11 @@ def resolve_op(store, op):
         j = pick(store, op[ai][1], kinds)
         if j is None: return None
         op[ai] = ['o', j]
+    if n == 'conv':
+        k = kind_of(store[i]); how = op[1]
+        code = {'sv': 'CIdent', 'sa': 'CIdent', 'sp': 'CIdent', 'spc': 'CIdent', 'svc': 'CCopy', 'sac': 'CCopy', 'SA': 'CCopy',
+                'SV': 'CCopy' if k == 'v' else 'CFloat', 'SL': 'CCopy' if k == 'l' else 'CBool'}[how]
+        op = op[:3] + [code]
     if n == 'copylike':
         x = store[i]
         if op[2][0] == 'view':
@@ -327,6 +335,18 @@ def exec_op(store, op):
     elif n == 'red':
         x = store[op[2]]
         r = getattr(x, op[1])(axis=op[3], keepdims=op[4])
+    elif n == 'conv':
+        e = env(); sp = e['sp']; x = store[op[2]]; how = op[1]
+        if how == 'sv': r = sp.sparse_vector(x)
+        elif how == 'svc': r = sp.sparse_vector(x, copy=True)
+        elif how == 'sa': r = sp.sparse_array(x)
+        elif how == 'sac': r = sp.sparse_array(x, copy=True)
+        elif how == 'sp': r = sp.sparse(x)
+        elif how == 'spc': r = sp.sparse(x, copy=True)
+        elif how == 'SV': r = e['SV'](x)
+        elif how == 'SL': r = e['SL'](x)
+        elif how == 'SA': r = e['SA'](x)
+        else: raise ValueError(how)
     elif n == 'copylike':
         x = store[op[1]]
         other = store[op[2][1]] if op[2][0] == 'o' else x[[int(k) for k in op[2][1]]]
@@ -377,6 +397,9 @@ def run_history(case, observe_np=False):
             out['final'] = before
             return out
         out['outs'].append(o)
+        if 'inexact' not in out and ((op[0] in ('bin', 'ibin', 'rbin') and op[1] in ARITH) or (op[0] == 'un' and op[1] in ('neg', 'abs'))):
+            msg = exact_diff(op, o, out['np'][-1], now)
+            if msg: out['inexact'] = f'op #{len(out["ops"]) - 1} {op}: {msg}'
         if o[0] == 'err' and o[1] in CRASH:
             out['final'] = before           # the target may be partly modified; history ends
             return out
@@ -384,6 +407,20 @@ def run_history(case, observe_np=False):
             out['partial'] = f'op #{len(out["ops"]) - 1} {op} raised {o[1]} after modifying an object'
     out['final'] = [snap(x) for x in store]
     return out
+
+def exact_diff(op, o, ref, now):
+    """elementwise + - * / are one IEEE operation in the sparse kernels and in NumPy: the values must be identical"""
+    if o[0] == 'new' and ref[0] == 'new' and ref[1]: got, want = o[1], ref[1]
+    elif o[0] == 'unit' and ref[0] == 'upd' and ref[1]: got, want = now[op[3] if op[0] == 'rbin' else op[2]], ref[1]
+    else: return None
+    def flat1(x):
+        vals = x[1] if x[0] in ('v', 'l') else [v for r in x[1] for v in r]
+        return [F(0) if v is None else (F(int(v)) if isinstance(v, bool) else F(v)) for v in vals]
+    g, w = flat1(got), flat1(want)
+    if len(g) != len(w) or g == w: return None
+    if not all(abs(a - b) <= F(1, 10**9) * max(1, abs(a), abs(b)) for a, b in zip(g, w)): return None    # gross differences are reported by the value comparison
+    k = [a != b for a, b in zip(g, w)].index(True)
+    return f'element {k} is {float(g[k])!r}, NumPy gives {float(w[k])!r}'
 
 def run_impl(case):
     return run_history(case)
@@ -445,6 +482,7 @@ def cop(op):
     if n == 'get': return f'(XOp (OGet {cnat(op[1])} {cindex(op[2], op[-1]["n"])}))'
     if n == 'set': return f'(XOp (OSet {cnat(op[1])} {cindex(op[2], op[-1]["n"])} {carg(op[3])}))'
     if n == 'red': return f'(XOp (ORed {RED[op[1]]} {cnat(op[2])} {copt(op[3], cnat)} {cbool(op[4])}))'
+    if n == 'conv': return f'(XOp (OConv {op[3]} {cnat(op[2])}))'
     if n == 'copylike':
         src = f'(CObj {cnat(op[2][1])})' if op[2][0] == 'o' else f'(CView {clist(op[2][1], cnat)})'
         return f'(XOp (OCopyLike {cnat(op[1])} {src}))'
@@ -472,7 +510,7 @@ def coq_case(case, out):
     ops = clist(out['ops'], cop)
     fin = clist(out['final'], cobj)
     outs = clist(out['outs'], coutcome)
-    ok = (out['aliased'] is None or LEGACY)
+    ok = (out['aliased'] is None or LEGACY) and 'inexact' not in out
     t = f'(run_eqb {cbool(LEGACY)} {init} {ops} {fin} {outs} && {cbool(ok)}'
     # the initial store as observed must be what the model constructs
     t += f' && list_eqb obj_eqb {init} {clist(out["init"], cobj)}'
@@ -593,10 +631,12 @@ def gen_op(rng, n, m, malformed):
                 rng.random() < 0.4]
     if r < 0.935:
         k = rng.random()
-        if k < 0.4:
+        if k < 0.25:
+            return ['conv', rng.choice(['sv', 'svc', 'SV', 'SL', 'sa', 'sac', 'sp']), rng.randrange(64)]
+        if k < 0.5:
             src = ['o', rng.randrange(64)] if rng.random() < 0.7 else ['view', [rng.randrange(8) for _ in range(rng.randint(1, 3))]]
             return ['copylike', rng.randrange(64), src]
-        if k < 0.8:
+        if k < 0.85:
             return ['toflat', rng.randrange(64), rng.choice([None, [float(rng.choice(VALS[1:])) for _ in range(rng.randint(1, 4))]])]
         return ['fromflat', rng.randrange(64), gvals(rng, rng.randint(1, 6))]
     if r < 0.95:
@@ -792,9 +832,87 @@ def reduction_sweep(rng):
                   'ops': [['red', name, k, axis, keep] for k in (0, 1, 2) for name in RED for axis in (None, 0) for keep in (False, True)]})
     return cases
 
+def rounding_sweep(rng):
+    """elementwise * and / (binary, in-place, reflected, row-wise) with operands for which `x * (1/s)`, a different order of
+    operations or an intermediate overflow would change the last bit: compared EXACTLY with NumPy"""
+    E = [3.0, 0.3, 49.0, 0.1, 7.0, 1.0 / 3.0, 1.5, 0.001]
+    S = [10.0, 3.0, 7.0, 49.0, 0.1, 1.5]
+    cases = []
+    for s0 in S:
+        ev = rng.sample(E, 4)
+        A = [rng.sample(E, 3), [0.0] + rng.sample(E, 2)]
+        w = [float(rng.choice(S[:6])) for _ in range(4)]
+        objs = [['v', ev, False], ['a', A], ['v', w, False], ['v', ev[:3], False]]
+        ops = []
+        for name in ('truediv', 'mul'):
+            for arg in (['s', s0], ['n0', s0], ['l', [s0]], ['n', [s0]], ['o', 2, ['v']], ['l', w], ['n', w]):
+                ops += [['bin', name, 0, arg], ['un', 'copy', 0], ['ibin', name, -1, arg]]
+            ops += [['rbin', name, s0, 0], ['bin', name, 1, ['s', s0]], ['un', 'copy', 1], ['ibin', name, -1, ['s', s0]],
+                    ['bin', name, 1, ['o', 3, ['v']]], ['un', 'copy', 1], ['ibin', name, -1, ['o', 3, ['v']]]]
+        for i in (3, 10, 7, 49):
+            ops += [['bin', 'truediv', 0, ['i', i]], ['un', 'copy', 0], ['ibin', 'truediv', -1, ['i', i]]]
+        cases.append({'objs': objs, 'ops': ops})
+    # a huge and a sub-normal divisor: 1/s underflows / overflows although x/s does not (few operations: the exact
+    # rationals of such doubles are 300-digit numbers)
+    for x, s0 in ((3.0, 1e300), (0.001, 1e-310)):
+        cases.append({'objs': [['v', [x, 0.0], False], ['a', [[x, 0.0]]]],
+                      'ops': [['ibin', 'truediv', 0, ['s', s0]], ['ibin', 'truediv', 1, ['n0', s0]]]})
+    return cases
+
+def slice_sweep(rng):
+    """every slice with start / stop in {None, 0 .. n} and step in {None, 1, 2} (including the empty ones: stop = 0,
+    start >= stop): get and set on vectors, logical vectors and (row and column slices of) arrays"""
+    n = 3
+    bounds = [None] + list(range(n + 1))
+    slices = [['sl', a, b, c] for a in bounds for b in bounds for c in (None, 1, 2)]
+    v = [float(rng.choice(VALS[1:])) for _ in range(n)]
+    A = [[float(rng.choice(VALS[1:])) for _ in range(n)] for _ in range(n)]
+    cases = []
+    ops = []
+    for sl in slices:
+        ops += [['get', 0, sl, {'raw': True}], ['get', 1, sl, {'raw': True}]]
+    cases.append({'objs': [['v', v, False], ['l', [True, False, True]]], 'ops': ops})
+    for chunk in (slices[:len(slices) // 2], slices[len(slices) // 2:]):
+        ops = []
+        for sl in chunk:
+            q = float(rng.choice(VALS[1:]))
+            ops += [['un', 'copy', 0], ['set', -1, sl, ['s', q], {'raw': True}], ['un', 'copy', 1], ['set', -1, sl, ['sb', True], {'raw': True}]]
+        cases.append({'objs': [['v', v, False], ['l', [False, False, False]]], 'ops': ops})
+    ops = []
+    for sl in slices:
+        ops += [['aget', 0, ['pair', sl, ['i', 1]], {'raw': True}], ['aget', 0, ['pair', ['i', 1], sl], {'raw': True}],
+                ['aget', 0, ['pair', sl, ['sl', 0, 2, None]], {'raw': True}], ['aget', 0, ['row', sl], {'raw': True}]]
+    cases.append({'objs': [['a', A]], 'ops': ops})
+    for chunk in (slices[:len(slices) // 2], slices[len(slices) // 2:]):
+        ops = []
+        for sl in chunk:
+            q = float(rng.choice(VALS[1:]))
+            ops += [['un', 'copy', 0], ['aset', -1, ['pair', sl, ['i', 0]], ['s', q], {'raw': True}],
+                    ['un', 'copy', 0], ['aset', -1, ['pair', ['i', 2], sl], ['s', q], {'raw': True}],
+                    ['un', 'copy', 0], ['aset', -1, ['row', sl], ['s', q], {'raw': True}]]
+        cases.append({'objs': [['a', A]], 'ops': ops})
+    return cases
+
+def conv_sweep(rng):
+    """conversion helpers and copy constructors; then the result and the original are modified in place and both are read:
+    a requested copy must be independent, an identity conversion must be the object itself"""
+    n = 3
+    objs = [['v', gvals(rng, n, 0.2), False], ['v', gvals(rng, n, 0.2), True], ['l', gbools(rng, n)], ['a', [gvals(rng, n, 0.2) for _ in range(2)]],
+            ['b', [gbools(rng, n) for _ in range(2)]]]
+    ops = []
+    for how, targets in (('sv', (0, 1, 2)), ('svc', (0, 1, 2)), ('SV', (0, 1, 2)), ('SL', (0, 2)), ('sa', (3, 4)), ('sac', (3, 4)), ('sp', (0, 2, 3, 4))):
+        for t in targets:
+            ops += [['conv', how, t]]
+            if t in (0, 3):       # float objects that are not read-only: modify the result (or, for an identity conversion, the object) and read both
+                ops += [['ibin', 'add', -1, ['s', 1.0]], ['un', 'toarray', t], ['ibin', 'mul', t, ['s', 2.0]], ['un', 'toarray', -1], ['un', 'toarray', t]]
+            else:
+                ops += [['un', 'toarray', -1], ['un', 'toarray', t]]
+    return [{'objs': objs, 'ops': ops}]
+
 def gen_cases(rng, tier):
     nrand = 260 if tier == 'quick' else 5000
-    cases = readonly_sweep() + shape_sweep(rng) + helper_sweep(rng) + reduction_sweep(rng) + [gen_history(rng) for _ in range(nrand)]
+    cases = (readonly_sweep() + shape_sweep(rng) + helper_sweep(rng) + reduction_sweep(rng) + rounding_sweep(rng) + slice_sweep(rng)
+             + conv_sweep(rng)) + [gen_history(rng) for _ in range(nrand)]
     cases += small_scope(rng, tier)
     return cases
 
@@ -904,6 +1022,12 @@ def np_eval(store, op):
             return ['upd', np_obs(x)]
         elif n == 'red':
             r = getattr(dense_of(store[op[2]]), op[1])(axis=op[3], keepdims=op[4])
+        elif n == 'conv':
+            x = store[op[2]].to_array()
+            if op[1] in ('sv', 'sa', 'sp'): return ['self']              # np.asarray(a) is a
+            if op[1] == 'SV': x = x.astype(float)
+            if op[1] == 'SL': x = x.astype(bool)
+            r = np.array(x, copy=True)
         elif n == 'copylike':
             x = dense_of(store[op[1]])
             if op[2][0] == 'o': b = store[op[2][1]].to_array()
@@ -925,7 +1049,9 @@ def np_eval(store, op):
 def np_value(r):
     if isinstance(r, np.ndarray) and r.ndim >= 1:
         o = np_obs(r)
-        return {'v': ['dense', o[1]], 'l': ['denseb', o[1]], 'a': ['dense2', o[1]], 'b': ['denseb2', o[1]]}[o[0]]
+        res = {'v': ['dense', o[1]], 'l': ['denseb', o[1]], 'a': ['dense2', o[1]], 'b': ['denseb2', o[1]]}[o[0]]
+        if r.ndim == 2 and r.shape[0] == 0: res = res + [list(r.shape)]      # an empty list of rows has lost the column count
+        return res
     if isinstance(r, (bool, np.bool_)) or (isinstance(r, np.ndarray) and r.dtype == bool): return ['bool', bool(r)]
     return ['scal', fr_json(frac(r))]
 
@@ -933,6 +1059,7 @@ def in_fragment(store, op):
     """operations covered by np_step of coq/C09/Dense.v"""
     n = op[0]
     if n == 'toflat': return True
+    if n == 'conv': return kind_of(store[op[2]]) == 'v' and op[3] in ('CIdent', 'CCopy') and op[1] != 'spc'
     if n == 'copylike':
         return kind_of(store[op[1]]) == 'v' and op[2][0] == 'o' and kind_of(store[op[2][1]]) == 'v'
     pos = {'bin': 2, 'ibin': 2, 'rbin': 3, 'un': 2, 'get': 1, 'set': 1, 'red': 2}.get(n)
@@ -1011,7 +1138,7 @@ def invariant(store):
 
 def opkind(store, op):
     n = op[0]
-    pos = {'bin': 2, 'ibin': 2, 'rbin': 3, 'un': 2, 'get': 1, 'set': 1, 'red': 2, 'aget': 1, 'aset': 1, 'copylike': 1, 'toflat': 1, 'fromflat': 1}[n]
+    pos = {'bin': 2, 'ibin': 2, 'rbin': 3, 'un': 2, 'get': 1, 'set': 1, 'red': 2, 'aget': 1, 'aset': 1, 'copylike': 1, 'toflat': 1, 'fromflat': 1, 'conv': 2}[n]
     t = kind_of(store[op[pos]])
     name = op[1] if isinstance(op[1], str) else ''
     ai = {'bin': 3, 'ibin': 3, 'set': 3, 'aset': 3, 'copylike': 2}.get(n)
@@ -1055,7 +1182,9 @@ def oracle(case):
             o, new = ['err', err_class(ex)], None
         if new is not None:
             ids = set(i for x in store for i in data_ids(x))
-            if any(i in ids for i in data_ids(new)): return f'{tag}: shared-data: the result shares its dict/set with an operand'
+            if any(i in ids for i in data_ids(new)):
+                if n == 'conv' and op[1] == 'SA': return f'{tag}: constructor-shares-rows: SparseArray(A) wraps the row objects of A'
+                return f'{tag}: shared-data: the result shares its dict/set with an operand'
             store.append(new)
         msg = invariant(store)
         if msg: return f'{tag}: {msg}'
@@ -1099,6 +1228,8 @@ def oracle(case):
                 return f'{tag}: [{pre_class}] returns normally where NumPy raises EValue'
             return f'{tag}: returns normally where NumPy raises {ref[1]}'
         # both returned: compare dense images
+        if n == 'conv' and o[0] == 'self' and ref[0] == 'new':
+            return f'{tag}: copy-flag: sparse(x, copy=True) returned x itself (NumPy: np.array(a, copy=True) is a new array)'
         if o[0] == 'self' or ref[0] == 'self': continue
         if o[0] == 'unit':
             got = flat(snap(store[op[pos]]))
@@ -1114,8 +1245,17 @@ def oracle(case):
             while len(sh) > 1 and sh[0] == 1: sh = sh[1:]
             return () if sh == (1,) else sh
         if squeeze(got[0]) != squeeze(want[0]):          # reduce_ndim drops leading axes of length 1 by design
-            if len(got[1]) == len(want[1]) == 0: continue
+            if len(got[1]) == len(want[1]) == 0:
+                if n == 'aget' and ref[0] in ('dense2', 'denseb2') and len(ref) > 2 and ref[2][1] > 0 and len(got[0]) == 1:
+                    return f'{tag}: empty-selection: a[rows, cols] with no selected row has shape {got[0]} where NumPy gives {tuple(ref[2])}'
+                continue
             return f'{tag}: shape {got[0]} where NumPy gives {want[0]}'
+        exact_op = (n in ('bin', 'ibin', 'rbin') and name in ARITH) or (n == 'un' and name in ('neg', 'abs', 'copy', 'toarray')) \
+                   or n in ('get', 'aget', 'toflat', 'conv') or (n == 'red' and name in ('max', 'min', 'any', 'all'))
+        if exact_op and close(got[1], want[1]) and got[1] != want[1]:
+            k = [a != b for a, b in zip(got[1], want[1])].index(True)
+            return (f'{tag}: rounding: element {k} is {float(got[1][k])!r} where NumPy gives {float(want[1][k])!r} '
+                    f'(a single IEEE operation on both sides must agree exactly)')
         if not close(got[1], want[1]):
             if n == 'set' and ak.endswith('-self'):
                 return f'{tag}: self-assignment: v[index] = v reads the values while they are being written (NumPy copies first)'
@@ -1194,6 +1334,9 @@ def zero_class(pre_dense, op):
 
 CLASSES = [
     ('raises ERuntime', 'runtime-error'),
+    ('constructor-shares-rows', 'constructor-shares-rows'),
+    ('copy-flag', 'sparse-copy-flag-ignored'),
+    ('empty-selection', 'empty-selection-shape'),
     ('shared-data', 'shared-data'),
     ('stores a zero', 'invariant-stored-zero'),
     ('outside range', 'invariant-key-out-of-range'),
@@ -1202,6 +1345,7 @@ CLASSES = [
     ('read-only vector', 'read-only-vector-write-accepted'),
     ('read-only', 'read-only-write-accepted'),
     ('frame', 'frame'),
+    ('rounding', 'result-not-bitwise-equal'),
     ('copy-alias', 'copy-like-alias-changes-data'),
     ('self-assignment', 'setitem-from-itself-reads-written-values'),
     ('logical nonzero/0', 'logical-nonzero-over-zero-accepted'),
@@ -1283,3 +1427,19 @@ WITNESSES += [
     {'key': 'C09:result-shape:bin',
      'case': {'objs': [['a', [[1.0, 2.0, 3.0]]]], 'ops': [['bin', 'add', 0, ['n2', [[1.0, 1.0, 1.0], [2.0, 2.0, 2.0]]]]]}},
 ]
+
+# witnesses of behaviour found in round 3 on the unchanged tree; each becomes active (is replayed on every run) as soon as its
+# finding line is listed in known_findings.txt, so that the check passes before and re-establishes the finding after
+PROPOSED_WITNESSES = [
+    {'key': 'C09:constructor-shares-rows',
+     'case': {'objs': [['a', [[1.0, 2.0], [0.0, 3.0]]]], 'ops': [['conv', 'SA', 0]]}},
+    {'key': 'C09:sparse-copy-flag-ignored',
+     'case': {'objs': [['v', [1.0, 2.0], False]], 'ops': [['conv', 'spc', 0]]}},
+    {'key': 'C09:empty-selection-shape',
+     'case': {'objs': [['a', [[1.0, 2.0], [0.0, 3.0]]]], 'ops': [['aget', 0, ['pair', ['sl', 0, 0, None], ['sl', 0, 2, None]], {'raw': True}]]}},
+]
+def _listed():
+    import vf
+    known = vf.load_known()
+    return [w for w in PROPOSED_WITNESSES if (ID, w['key']) in known]
+WITNESSES += _listed()
